@@ -31,8 +31,9 @@ ACCEPT_REGIONS = {
         rx.Region("ident-keyword-namespace", r"(?:true|false|null|any|all)\.[\s\S]*", "keyword namespace (see above)"),
         rx.Region("ident-nonascii-leading-letter", r"(?:[\s\S]*\.)?[^\x00-\x7f][\s\S]*",
                   "a name / namespace part that starts with a non-ASCII letter (ABNF: Unicode categories L, Nl) is not an identifier token"),
-        rx.Region("ident-nonascii-mark-or-digit", NONASCII,
-                  "a non-ASCII character that the ABNF allows inside an identifier (categories L, Nl, Nd, Mn, Mc, Pc, Cf) ends the token"),
+        rx.Region("ident-nonascii-mark-or-digit", r"[\s\S]*[^\w.\x00-\x7f][\s\S]*",
+                  "a non-ASCII character that the ABNF allows inside an identifier but Python's \\w does not match "
+                  "(categories Mn, Mc, Pc, Cf: combining marks, connector punctuation, format characters) ends the token"),
     ],
     "DATETIME": [
         rx.Region("year-below-1000", r"0[\s\S]*", "a date / date-time literal whose year is 0001..0999 is not recognised"),
